@@ -204,6 +204,8 @@ def run(ctx: Ctx) -> None:
     from . import c08 as _c08
     _c08.r08_13(ctx, rule="R14.8")  # an archive the parser rejects must never be replaced by a new one
     shared.strict_reads(ctx, "R14.7")
+    from . import c07 as _c07
+    _c07.r07_2(ctx)  # the placeholder lands on the start header (offset 0), wherever the handle stands: it is what voids the old header of an append
     r14_1(ctx)
     r14_2(ctx)
     c04.r04_1(ctx)
